@@ -64,7 +64,7 @@ SPECS.update({
         assumptions=ASSUME_FILE + ["files that carry a valid tag but were not produced by encryption are outside the property's domain and are not generated"]),
     "C12": dict(
         harness="ftamper", src=["harness/ftamper.cpp"], plan=tamper_plan("c12"), level="fault_enumeration",
-        rule="union of the C05 modification corpus (10 base files), the C06 key set and the C11 malformed corpus; one evaluation = verify and decrypt of the same (file,key); "
+        rule="union of the C05 modification corpus (10 base files), the C06 key set, the C11 malformed corpus and valid files cut to every length >= 48 and re-tagged with the key; one evaluation = verify and decrypt of the same (file,key); "
              "oracle: equal results, verify leaves its output stream empty, input files byte-identical afterwards",
         assumptions=ASSUME_FILE),
 })
